@@ -3,4 +3,5 @@ CONSTANTS
   N = 100000
   FlushPolicy = "always"
   MayFail = FALSE
+  MayFlushFail = TRUE
 CHECK_DEADLOCK FALSE
